@@ -365,7 +365,11 @@ def do_unit(unit, ucfg, repo, wdir, tier, prop):
             R["vacuity"]["note"] = "not evaluated: the unit did not get through the front end, so the probes were never checked"
         elif missing:
             # a probe that does not fail means a contradictory precondition / invariant (or an unreachable loop)
-            R["undecided"].append({"message": "vacuity: assert(false) was PROVED at: " + "; ".join(p["what"] for p in missing)})
+            rl = any("Resource limit" in str(d.get("message", "")) for d in vv["diags"])
+            if rl:
+                R["undecided"].append({"message": "vacuity: probe run hit the resource limit, so these probes are UNDETERMINED (not proved): " + "; ".join(p["what"] for p in missing)})
+            else:
+                R["undecided"].append({"message": "vacuity: assert(false) was PROVED at: " + "; ".join(p["what"] for p in missing)})
     if R["undecided"]:
         R["status"] = "undecided"
     # thorough tier: re-run the unit under two more Z3 seeds (derived from VERIF_SEED). A function that verifies under the
